@@ -920,7 +920,11 @@ pub fn replay(case: &J) -> Verdict {
         // signature: the exact symptom first, else any collection consequence for this type)
         let same_type = |f: &&crate::engine::Failure| f.case["law"] == "collection-size" && f.case["type"] == case["type"];
         let exact = local.fails.values().filter(same_type).find(|f| f.case["collection"] == case["collection"] && f.case["part"] == case["part"]);
-        return match exact.or_else(|| local.fails.values().filter(same_type).min_by(|a, b| a.sig.cmp(&b.sig))) {
+        // (every symptom of one part of the pool carries the same signature, so a different symptom
+        // of the same part reproduces the recorded one; C12-r7: a second cause made the unit-free part
+        // fail too, and the alphabetically first signature belonged to that other part)
+        let same_part = || local.fails.values().filter(same_type).filter(|f| f.case["part"] == case["part"]).min_by(|a, b| a.sig.cmp(&b.sig));
+        return match exact.or_else(same_part).or_else(|| local.fails.values().filter(same_type).min_by(|a, b| a.sig.cmp(&b.sig))) {
             Some(f) => Err((f.sig.clone(), format!("collection consequence for {}", case["type"]))),
             None => Ok(()),
         };
